@@ -215,6 +215,12 @@ impl KeyboardLayout for DynLayout {
                 let answer = match l.counter % 7 {
                     5 => DecodedKey::RawKey(crate::keys::ALL_KEYS[(l.counter as usize / 7 * 5 + 3) % crate::keys::NKEYS]),
                     6 => DecodedKey::Unicode(b"abcxyzABCXYZ0189 mM"[(l.counter as usize / 7) % 19] as char),
+                    // ... or anything else a char can be: NUL, C0 controls, DEL, combining marks
+                    // (dead keys), Latin-1, the ends of the code space
+                    4 => DecodedKey::Unicode(
+                        ['\0', '\u{1}', '\u{3}', '\u{8}', '\u{1a}', '\u{1b}', '\u{7f}', '\u{a0}', '\u{e9}', '\u{300}', '\u{301}', '\u{308}', '\u{36f}', '\u{d7ff}', '\u{e000}', '\u{fffd}', '\u{10ffff}']
+                            [(l.counter as usize / 7) % 17],
+                    ),
                     _ => DecodedKey::Unicode(char::from_u32(token).unwrap_or('\u{F0000}')),
                 };
                 l.counter += 1;
